@@ -73,6 +73,7 @@ type gen struct {
 	inLoop  int
 	results []string
 	xgo     []XGoPkg
+	hdr     bool // generating the header of if/for/switch: no composite literals of named struct types
 }
 
 type gfunc struct {
@@ -192,6 +193,16 @@ func (g *gen) anyType() string {
 }
 
 func (g *gen) lit(t string) string {
+	if g.hdr {
+		if strings.HasPrefix(t, "*") {
+			return "new(" + t[1:] + ")"
+		}
+		for _, s := range g.structs {
+			if s == t {
+				return "*new(" + t + ")"
+			}
+		}
+	}
 	switch t {
 	case "int":
 		return fmt.Sprint(g.c.Int(100))
@@ -441,6 +452,16 @@ func (g *gen) expr(t string, d int) string {
 			return "func(" + x + " int) int { return " + body + " }"
 		}
 	}
+	if g.hdr {
+		if strings.HasPrefix(t, "*") {
+			return g.lit(t)
+		}
+		for _, s := range g.structs {
+			if s == t {
+				return g.lit(t)
+			}
+		}
+	}
 	if strings.HasPrefix(t, "*") {
 		s := t[1:]
 		switch g.c.Int(3) {
@@ -638,10 +659,10 @@ func (g *gen) stmt(b *sb, d int) {
 		g.push()
 		if chance(g.c, 1, 3) {
 			v := g.fresh(false)
-			b.line("if %s := %s; %s > 0 {", v, g.expr("int", 1), v)
+			b.line("if %s := %s; %s > 0 {", v, g.hexpr("int", 1), v)
 			g.declare(v, "int")
 		} else {
-			b.line("if %s {", g.expr("bool", 2))
+			b.line("if %s {", g.hexpr("bool", 2))
 		}
 		b.ind++
 		g.push()
@@ -658,7 +679,7 @@ func (g *gen) stmt(b *sb, d int) {
 			b.ind--
 			b.line("}")
 		case 1:
-			b.line("} else if %s {", g.expr("bool", 1))
+			b.line("} else if %s {", g.hexpr("bool", 1))
 			b.ind++
 			g.push()
 			g.stmts(b, 1, d-1)
@@ -680,10 +701,10 @@ func (g *gen) stmt(b *sb, d int) {
 		switch g.c.Int(3) {
 		case 0:
 			v := g.fresh(false)
-			b.line("for %s := 0; %s < %s; %s++ {", v, v, g.expr("int", 1), v)
+			b.line("for %s := 0; %s < %s; %s++ {", v, v, g.hexpr("int", 1), v)
 			g.declare(v, "int")
 		case 1:
-			b.line("for %s {", g.expr("bool", 1))
+			b.line("for %s {", g.hexpr("bool", 1))
 		case 2:
 			b.line("for {")
 		}
@@ -693,9 +714,9 @@ func (g *gen) stmt(b *sb, d int) {
 		g.stmts(b, 1+g.c.Int(3), d-1)
 		if lbl != "" {
 			if chance(g.c, 1, 2) {
-				b.line("if %s { break %s }", g.expr("bool", 1), lbl)
+				b.line("if %s { break %s }", g.hexpr("bool", 1), lbl)
 			} else {
-				b.line("if %s { continue %s }", g.expr("bool", 1), lbl)
+				b.line("if %s { continue %s }", g.hexpr("bool", 1), lbl)
 			}
 		} else {
 			b.line("break")
@@ -713,31 +734,31 @@ func (g *gen) stmt(b *sb, d int) {
 			if k == v {
 				v = v + "x"
 			}
-			b.line("for %s, %s := range %s {", k, v, g.expr("[]int", 2))
+			b.line("for %s, %s := range %s {", k, v, g.hexpr("[]int", 2))
 			g.declare(k, "int")
 			g.declare(v, "int")
 			b.ind++
 			b.line("_, _ = %s, %s", k, v)
 		case 1:
 			k := g.fresh(false)
-			b.line("for %s := range %s {", k, g.expr("map[string]int", 1))
+			b.line("for %s := range %s {", k, g.hexpr("map[string]int", 1))
 			g.declare(k, "string")
 			b.ind++
 			b.line("_ = %s", k)
 		case 2:
 			_, v := "", g.fresh(false)
-			b.line("for _, %s := range %s {", v, g.expr("[]string", 1))
+			b.line("for _, %s := range %s {", v, g.hexpr("[]string", 1))
 			g.declare(v, "string")
 			b.ind++
 			b.line("_ = %s", v)
 		case 3:
-			b.line("for range %s {", g.expr("[]int", 1))
+			b.line("for range %s {", g.hexpr("[]int", 1))
 			b.ind++
 		case 4:
 			if vs := g.visible("int"); len(vs) > 0 {
-				b.line("for %s = range %s {", vs[g.c.Int(len(vs))], g.expr("[]int", 1))
+				b.line("for %s = range %s {", vs[g.c.Int(len(vs))], g.hexpr("[]int", 1))
 			} else {
-				b.line("for range %s {", g.expr("string", 1))
+				b.line("for range %s {", g.hexpr("string", 1))
 			}
 			b.ind++
 		}
@@ -745,7 +766,7 @@ func (g *gen) stmt(b *sb, d int) {
 		g.inLoop++
 		g.stmts(b, 1+g.c.Int(2), d-1)
 		if chance(g.c, 1, 3) {
-			b.line("if %s { continue }", g.expr("bool", 1))
+			b.line("if %s { continue }", g.hexpr("bool", 1))
 		}
 		g.inLoop--
 		g.pop()
@@ -756,7 +777,7 @@ func (g *gen) stmt(b *sb, d int) {
 		g.push()
 		withTag := chance(g.c, 2, 3)
 		if withTag {
-			b.line("switch %s {", g.expr("int", 2))
+			b.line("switch %s {", g.hexpr("int", 2))
 		} else {
 			b.line("switch {")
 		}
@@ -769,7 +790,7 @@ func (g *gen) stmt(b *sb, d int) {
 					b.line("case %d:", 10*i+3)
 				}
 			} else {
-				b.line("case %s:", g.expr("bool", 1))
+				b.line("case %s:", g.hexpr("bool", 1))
 			}
 			b.ind++
 			g.push()
@@ -793,7 +814,7 @@ func (g *gen) stmt(b *sb, d int) {
 	case 16: // type switch
 		g.push()
 		v := g.fresh(false)
-		b.line("switch %s := any(%s).(type) {", v, g.expr(g.anyScalar(), 1))
+		b.line("switch %s := any(%s).(type) {", v, g.hexpr(g.anyScalar(), 1))
 		b.line("case int:")
 		b.ind++
 		g.push()
@@ -919,7 +940,7 @@ func (g *gen) stmt(b *sb, d int) {
 		}
 	case 24: // early return
 		if chance(g.c, 1, 2) {
-			b.line("if %s {", g.expr("bool", 1))
+			b.line("if %s {", g.hexpr("bool", 1))
 			b.ind++
 			g.ret(b)
 			b.ind--
@@ -1324,4 +1345,15 @@ func (g *gen) index() string {
 		return vs[g.c.Int(len(vs))]
 	}
 	return fmt.Sprint(g.c.Int(3))
+}
+
+// hexpr generates an expression for the header of if/for/switch/range, where a composite
+// literal of a named struct type must not appear unparenthesised (gogen's printer drops
+// the parentheses; that is C12's subject, not the claimed properties').
+func (g *gen) hexpr(t string, d int) string {
+	old := g.hdr
+	g.hdr = true
+	e := g.expr(t, d)
+	g.hdr = old
+	return e
 }
